@@ -1041,6 +1041,7 @@ def core_stream(ctx, items, stats):
     groups, gmeta = [], []
     cur, curm = None, None
     pi = 0
+    pending = []
     for item, r in zip(items, results):
         if 'skip' in r:
             stats['skipped'] += 1
@@ -1063,7 +1064,7 @@ def core_stream(ctx, items, stats):
         cur['defs'].append('Definition %s := %s.' % (pname, gp))
         occs = {o[0]: o for o in r['occs']}
         cls_line = {int(k): v for k, v in r['cls_line'].items()}
-        single, jtags = {}, {}
+        single, jtags, infidx = {}, {}, {}
         # (b) Script.infer vs ainfer
         for oid, a in sorted(r['answers'].items()):
             o = occs[oid]
@@ -1075,6 +1076,7 @@ def core_stream(ctx, items, stats):
             jtags[oid] = tags
             stats['probes'] += 1
             ctx.count(kind + '-infer', (r['src'], oid), nontrivial=bool(tags))
+            infidx[oid] = (len(groups) - 1, len(cur['inf']))
             cur['inf'].append('IN %s %d %d %d' % (pname, o[1], enc_path(o[8]), enc_tags(tags)))
             curm['inf'].append(dict(source=r['src'], line=o[3], column=a['col'], stmt=o[1], expr=g_expr(o[2]), infer=a['res'], program=gp))
         # (a) execution vs eval, (c) the property
@@ -1109,16 +1111,23 @@ def core_stream(ctx, items, stats):
                 ok_in = rc in names and rt in jtags[oid]
                 ok_exact = (not single[oid]) or jtags[oid] == [rt]
                 if not ok_in or not ok_exact:
-                    ctx.deviation(dict(stream=kind, cls='class-missing' if not ok_in else 'not-exact', where=o[7]),
-                                  dict(source=r['src'], line=o[3], column=a['col'], inputs=run_['inp'], runtime=list(rc), infer=a['res'],
-                                       stmt=o[1], expr=g_expr(o[2]), program=gp),
-                                  'line %d col %d: run-time class %r, infer reports %r%s' % (
-                                      o[3], a['col'], rc, a['res'], '' if not ok_in else ' (single-valued expression: must be exactly that class)'))
+                    pending.append((infidx[oid],
+                                    dict(stream=kind, cls='class-missing' if not ok_in else 'not-exact', where=o[7],
+                                         shape='keyword-names-star-param' if kw_star_clash(r['prog']) else 'plain'),
+                                    dict(source=r['src'], line=o[3], column=a['col'], inputs=run_['inp'], runtime=list(rc), infer=a['res'],
+                                         stmt=o[1], expr=g_expr(o[2]), program=gp),
+                                    'line %d col %d: run-time class %r, infer reports %r%s' % (
+                                        o[3], a['col'], rc, a['res'], '' if not ok_in else ' (single-valued expression: must be exactly that class)')))
     t0 = time.time()
     fails, err = coq_groups(groups, KINDS)
     stats['t_coq_s'] += round(time.time() - t0, 1)
     if err:
         raise RuntimeError('coq evaluation failed: ' + err)
+    badinf = set(fails['inf'])
+    for key, sig, data, what in pending:
+        # predicted: the Coq transcription of jedi's evaluator gives exactly the answer the implementation gave
+        sig['predicted'] = key not in badinf
+        ctx.deviation(sig, data, what)
     for kind, _ in KINDS:
         stats['coq_%s_cases' % kind] += sum(len(g[kind]) for g in groups)
         stats['coq_%s_disagree' % kind] += len(fails[kind])
@@ -1143,12 +1152,41 @@ def g_inp(inp):
     return common.g_list(inp, common.g_bool, 'bool')
 
 
+def kw_star_clash(prog):
+    """harness-side classifier: some call passes a keyword that names a *args/**kwargs parameter of a
+    function of the program (the negation of the theorems' hypothesis kw_ok_prog)"""
+    star = {x for st in prog if st[0] == 'def' for x, k, _ in st[2] if k != 'reg'}
+    found = []
+
+    def walk(e):
+        if e[0] == 'tuple':
+            [walk(x) for x in e[1]]
+        elif e[0] == 'index':
+            walk(e[1])
+        elif e[0] == 'tern':
+            walk(e[2]), walk(e[3])
+        elif e[0] == 'call':
+            [walk(x) for x in e[2]]
+            for k, x in e[3]:
+                if k in star:
+                    found.append(k)
+                walk(x)
+    for st in prog:
+        if st[0] == 'assign':
+            walk(st[2])
+        elif st[0] == 'def':
+            walk(st[3])
+            [walk(d) for _, _, d in st[2] if d is not None]
+    return bool(found)
+
+
 # ------------------------------------------------------------------ mro stream
 def mro_stream(ctx, hiers, stats):
     results = common.pmap(_mro_task, list(enumerate(hiers)), chunksize=8)
     groups, gmeta = [], []
     cur = None
     hi = 0
+    pending = []
     for h, r in zip(hiers, results):
         if 'skip' in r:
             stats['skipped'] += 1
@@ -1198,13 +1236,17 @@ def mro_stream(ctx, hiers, stats):
                     # the depth-first definer
                     dfs = dfs_owner(h, pr['c'], pr['a'])
                     cls = 'diamond-override-in-later-branch' if (dfs is not None and dfs != pc and jc == dfs) else 'other'
-                    ctx.deviation(dict(stream='mro', cls=cls),
-                                  dict(source=r['src'], line=pr['line'], runtime=py, infer=res, jedi_owner=pr['owner'], hierarchy=gh),
-                                  'line %d: attribute comes from class K%s (%s) at run time; infer reports %r (found in K%s)' % (
-                                      pr['line'], py[0], py[1], res, pr['owner']))
+                    pending.append(((len(groups) - 1, len(cur['at']) - 1), dict(stream='mro', cls=cls),
+                                    dict(source=r['src'], line=pr['line'], runtime=py, infer=res, jedi_owner=pr['owner'], hierarchy=gh),
+                                    'line %d: attribute comes from class K%s (%s) at run time; infer reports %r (found in K%s)' % (
+                                        pr['line'], py[0], py[1], res, pr['owner'])))
     fails, err = coq_groups(groups, [('at', 'chk_attr'), ('mr', 'chk_mro')])
     if err:
         raise RuntimeError('coq evaluation failed (mro): ' + err)
+    badat = set(fails['at'])
+    for key, sig, data, what in pending:
+        sig['predicted'] = key not in badat     # the Coq depth-first model gives the implementation's (wrong) answer
+        ctx.deviation(sig, data, what)
     for kind, what in (('at', 'Coq jedi_attr / py_attr vs Script.infer+goto / CPython attribute lookup'), ('mr', 'Coq c3_table vs CPython __mro__')):
         stats['coq_%s_cases' % kind] += sum(len(g[kind]) for g in groups)
         stats['coq_%s_disagree' % kind] += len(fails[kind])
@@ -1363,15 +1405,17 @@ def sc_magic(u, V, rng):
 
 
 def sc_isinstance(u, V, rng):
+    # no `return` below the test and no use of the result: inferring the call would evaluate
+    # isinstance() itself, whose bool result needs the absent stubs (K2)
     a, b = V(), V()
     return ['def n_%s(p):' % u,
             '    if isinstance(p, Ka):',
             '        r_%s_a = p' % u,
-            '        return p',
-            '    r_%s_b = p' % u,
-            '    return %s' % a,
-            'r_%s_c = n_%s(%s)' % (u, u, b),
-            'r_%s_d = n_%s(Kb())' % (u, u)]
+            '    else:',
+            '        r_%s_b = p' % u,
+            'n_%s(%s)' % (u, a),
+            'n_%s(Kb())' % u,
+            'n_%s(%s)' % (u, b)]
 
 
 def sc_annotation(u, V, rng):
@@ -1455,6 +1499,7 @@ def sc_flow(u, V, rng):
             '    raise E_%s()' % u,
             'except E_%s as x_%s_e:' % (u, u),
             '    r_%s_f = %s' % (u, d),
+            '    x_%s_h = x_%s_e' % (u, u),
             'if cond_%s:' % u,
             '    v_%s = %s' % (u, a),
             'else:',
